@@ -136,6 +136,8 @@ class C14(Check):
         scen['cache'] = rng.choice(['rec', 'rec', 'dict_obj'])
         if scen['cache'] == 'dict_obj':
             scen['cache'] = 'rec'
+        scen.pop('refuse', None)          # (a mapping that refuses stores, helpers spawned by the function: C05 / C06)
+        scen.pop('spawn', None)
         scen['epilogue'] = rng.choice([True, 'hit_first'])
         if rng.random() < 0.3:
             # an owner that runs its loop again later: the computation it left pending completes after all
@@ -267,8 +269,22 @@ class C14(Check):
         A = self.A
         inv = []
 
+        keepers = {}        # model key -> (event, task): 'keep warm' helpers started by the wrapped function itself
+        keep_warm = case.get('cache') == 'map' and bool(case.get('ev')) and case.get('ev_pick', 0) % 3 == 0
+
         async def f(*a, **k):
             inv.append((a, dict(k)))
+            if keep_warm:
+                mk = (a, frozenset(k.items()))
+                if mk not in keepers:
+                    # a helper task created inside the wrapped function that outlives it: once told that the entry was
+                    # evicted, it asks for the same arguments again (through the wrapper, like anybody else)
+                    go = asyncio.Event()
+
+                    async def keeper():
+                        await go.wait()
+                        return await cf(*a, **k)
+                    keepers[mk] = (go, asyncio.ensure_future(keeper()))
             return (repr(a), repr(sorted(k.items())), len(inv))
 
         ckind = case['cache']
@@ -335,6 +351,19 @@ class C14(Check):
                         del model[m]
                     st['evictions'] += 1
                     events.append(('evict', repr(victim)))
+                    kp = keepers.pop(victim, None)
+                    if kp is not None:
+                        # the function's own helper refreshes the evicted entry: one computation, stored like any other
+                        before = len(inv)
+                        kp[0].set()
+                        rk = await kp[1]
+                        st['refreshed_by_the_functions_own_helper'] += 1
+                        events.append(('keeper', repr(victim), rk))
+                        if len(inv) != before + 1 or rk != (repr(victim[0]), repr(sorted(dict(victim[1]).items())), len(inv)):
+                            res.violate('C14:recomputed-more-than-once', 'the refresh after an eviction did not compute exactly once',
+                                        invocations=len(inv) - before, got=rk)
+                            return
+                        model[victim] = ((repr(victim[0]), repr(list(dict(victim[1]).items()))), rk)
                 a = tuple(materialise(VALUES[x]) for x in ai)
                 kw = {nm: materialise(VALUES[v]) for nm, v in kwi}
                 key = (a, frozenset(kw.items()))
@@ -386,6 +415,8 @@ class C14(Check):
                                 sets=cache.sets, invocations=len(inv))
 
         self.loop.run_until_complete(drive())
+        for go, task in keepers.values():
+            task.cancel()
         st[f'cache_{ckind}'] += 1
         recomputed_after_evict = st.get('evictions', 0) > 0 or st.get('lru_evictions_predicted', 0) > 0
         res.nontrivial = bool(st.get('hits_between_distinct_but_equal_signatures')) or recomputed_after_evict
